@@ -198,12 +198,16 @@ func findSites(top *ssa.Function) []*opSite {
 				if !observableCtors[name] || len(call.Call.Args) == 0 {
 					continue
 				}
-				mc, ok := call.Call.Args[0].(*ssa.MakeClosure)
-				if !ok {
-					continue
+				var sub *ssa.Function
+				switch a := call.Call.Args[0].(type) {
+				case *ssa.MakeClosure:
+					sub, _ = a.Fn.(*ssa.Function)
+				case *ssa.Function:
+					if a.Parent() != nil {
+						sub = a // a function literal without free variables
+					}
 				}
-				sub, ok := mc.Fn.(*ssa.Function)
-				if !ok {
+				if sub == nil {
 					continue
 				}
 				s := &opSite{Ctor: name, CtorCall: call, Subscribe: sub}
